@@ -42,6 +42,7 @@ class Concurrent(Harness):
             rix = req_index(tcp)
             done = {}
             txlog = []   # (time, req, seq within request)
+            kinds_seen = {}
 
             def on_send(sock, data, k):
                 data = bytes(data)
@@ -53,6 +54,7 @@ class Concurrent(Harness):
                     kind = pin[i]
                 else:
                     kind = KINDS[script.small(f"kind{j}_{i}", 0, len(KINDS) - 1)]
+                kinds_seen[(j, i)] = kind
                 if kind == "drop":
                     return 0
                 d = script.delay(i, "d", j, hi=T - 1)          # answered before that transmission's timeout
@@ -97,6 +99,7 @@ class Concurrent(Harness):
             except vworld.LiveLock as e:
                 obs.abort = "livelock: " + str(e)
             obs.done, obs.txlog = done, txlog
+            obs.kinds = dict(kinds_seen)
         return obs
 
     def verdict(self, obs, check, fail):
@@ -115,6 +118,9 @@ class Concurrent(Harness):
                     fail("a caller received the answer to another caller's request", f"caller {j}: {bytes(payload).hex()} != {want.hex()}")
         for j in range(n):
             k = sum(1 for x in obs.txlog if x[1] == j)
+            if obs.kinds.get((j, 0)) in ("answer", "two_fragments") and (k != 1 or obs.done[j][1] != "response"):
+                fail("a caller whose first transmission was answered in time retransmitted or failed",
+                     f"caller {j}: {k} transmissions, {obs.done[j][1]}")
             if k > self.retries + 1:
                 fail("a caller's request was transmitted more than retries+1 times", f"caller {j}: {k} transmissions")
         if self.two_objects:
